@@ -12,7 +12,7 @@ use std::hash::{Hash, Hasher};
 
 const OPS: &[&str] = &[
   "append", "split_off", "drain_vec", "clone", "compare", "spare", "split_spare", "raw_parts",
-  "raw_part", "leak", "clone_from",
+  "raw_part", "leak", "clone_from", "views",
 ];
 
 fn ord(o: Option<Ordering>) -> &'static str {
@@ -110,6 +110,86 @@ impl<T: El> Interp<T> {
           }
         }
         Out::Text(format!("{} {} {} {}", got.0, ord(got.1), ord(Some(got.2)), got.3))
+      }
+      "views" => {
+        // every borrowed view of the vector must be exactly the slice [as_ptr(), len()); sub-ranges and single
+        // indices must point where the slice says. No allocation inside the scope (names go into a fixed array).
+        argc(2)?;
+        let res = scoped(|| {
+          let mut bad: [&'static str; 24] = [""; 24];
+          let mut nb = 0usize;
+          let sz = core::mem::size_of::<T>();
+          let (p0, l0) = (v.as_ptr() as usize, v.len());
+          macro_rules! chk {
+            ($name:expr, $e:expr) => {{
+              let s: &[T] = $e;
+              // (a never-allocated vector reports a null as_ptr(); its views are empty slices at a dangling address)
+              let same = if p0 == 0 { s.len() == 0 && l0 == 0 } else { (s.as_ptr() as usize, s.len()) == (p0, l0) };
+              if !same && nb < 24 {
+                bad[nb] = $name;
+                nb += 1;
+              }
+            }};
+          }
+          {
+            let vr: &MiniVec<T> = &*v;
+            chk!("as_slice", vr.as_slice());
+            chk!("Deref", core::ops::Deref::deref(vr));
+            chk!("AsRef<[T]>", <MiniVec<T> as AsRef<[T]>>::as_ref(vr));
+            chk!("Borrow<[T]>", <MiniVec<T> as core::borrow::Borrow<[T]>>::borrow(vr));
+            chk!("Index<RangeFull>", &vr[..]);
+            chk!("IntoIterator for &MiniVec", vr.into_iter().as_slice());
+            if let std::borrow::Cow::Borrowed(s) = std::borrow::Cow::<[T]>::from(vr) {
+              chk!("Cow::from(&MiniVec)", s);
+            } else if nb < 24 {
+              bad[nb] = "Cow::from(&MiniVec) is not borrowed";
+              nb += 1;
+            }
+            if <MiniVec<T> as AsRef<MiniVec<T>>>::as_ref(vr) as *const MiniVec<T> != vr as *const MiniVec<T> && nb < 24 {
+              bad[nb] = "AsRef<MiniVec<T>>";
+              nb += 1;
+            }
+            for a in 0..=l0.min(3) {
+              for b in a..=l0.min(4) {
+                let s = &vr[a..b];
+                let same = if p0 == 0 { s.len() == 0 } else { (s.as_ptr() as usize, s.len()) == (p0.wrapping_add(a * sz), b - a) };
+                if !same && nb < 24 {
+                  bad[nb] = "Index<Range>";
+                  nb += 1;
+                }
+              }
+            }
+            for i in 0..l0.min(4) {
+              if &vr[i] as *const T as usize != p0.wrapping_add(i * sz) && nb < 24 {
+                bad[nb] = "Index<usize>";
+                nb += 1;
+              }
+            }
+          }
+          {
+            chk!("as_mut_slice", v.as_mut_slice());
+            chk!("DerefMut", core::ops::DerefMut::deref_mut(v));
+            chk!("AsMut<[T]>", <MiniVec<T> as AsMut<[T]>>::as_mut(v));
+            chk!("BorrowMut<[T]>", <MiniVec<T> as core::borrow::BorrowMut<[T]>>::borrow_mut(v));
+            chk!("IndexMut<RangeFull>", &mut v[..]);
+            chk!("IntoIterator for &mut MiniVec", (&mut *v).into_iter().into_slice());
+            let me = v as *mut MiniVec<T>;
+            if <MiniVec<T> as AsMut<MiniVec<T>>>::as_mut(v) as *mut MiniVec<T> != me && nb < 24 {
+              bad[nb] = "AsMut<MiniVec<T>>";
+              nb += 1;
+            }
+          }
+          (bad, nb)
+        });
+        match res {
+          Some((bad, nb)) => {
+            for k in 0..nb {
+              tl!("O view-mismatch {} {} is not the slice [as_ptr(), len())", r, bad[k]);
+            }
+            done(Some(()))
+          }
+          None => done(None),
+        }
       }
       "spare" => {
         argc(2)?;
